@@ -201,12 +201,18 @@ def gen_queries_long(ck, cap, out, rng, count):
             out.append(f"sz_{fam} {ck} {cap} {L(l)} {L(nd)} {p}")
             out.append(f"sc_{fam} {ck} {cap} {L(l)} {rng.choice(l + [al[2]])} {p}")
         out.append(f"qd_{fam} {ck} {cap} {L(l)} {L(nd)}")
+        out.append(f"qdz_{fam} {ck} {cap} {L(l)} {L(nd)}")
+        out.append(f"qdc_{fam} {ck} {cap} {L(l)} {rng.choice(l)}")
+        out.append(f"riter {ck} {cap} {L(l)}")
+        out.append(f"copy2 {ck} {cap} {L(l)} {rng.choice(ps)}")
         pn = list(range(0, len(nd) + 2)) + [NPOS]
         p1, n1, p2, n2 = rng.choice(ps), rng.choice(ps), rng.choice(pn), rng.choice(pn)
         if rng.random() < 0.7:
             p1, p2 = rng.randint(0, n), rng.randint(0, len(nd))
         out.append(f"cmp_5 {ck} {cap} {L(l)} {p1} {n1} {L(nd)} {p2} {n2}")
         out.append(f"c5v {ck} {cap} {L(l)} {p1} {n1} {L(nd)} {p2} {n2}")
+        out.append(f"c4v {ck} {cap} {L(l)} {p1} {n1} {L(nd)} {p2}")
+        out.append(f"c4s {ck} {cap} {L(l)} {p1} {n1} {L(nd)} {p2}")
         out.append(f"c3 {ck} {cap} {L(l)} {p1} {n1} {L(nd)}")
         out.append(f"c3z {ck} {cap} {L(l)} {p1} {n1} {L(nd)}")
         out.append(f"c3v {ck} {cap} {L(l)} {p1} {n1} {L(nd)}")
@@ -218,6 +224,7 @@ def gen_queries_long(ck, cap, out, rng, count):
         out.append(f"cmp_1 {ck} {cap} {L(l)} {L(m)}")
         out.append(f"rel_ss {ck} {cap} {L(l)} {L(m)}")
         out.append(f"rel_sx {ck} {cap} {L(l)} {L(m)}")
+        out.append(f"rel_sx {ck} {cap} {L(l)} {L((l + [rng.choice(al) for _ in range(rng.randint(1, 31 - n))])[:31])}")
         out.append(f"rel_sz {ck} {cap} {L(l)} {L(m)}")
         out.append(f"rel_zs {ck} {cap} {L(l)} {L(m)}")
         out.append(f"cz {ck} {cap} {L(l)} {L(m)}")
@@ -273,11 +280,15 @@ def gen_overloads(ck, caps, out, rng, frac=1.0):
             ps = list(range(0, len(l) + 2)) + [NPOS]
             out.append(f"ef {ck} {cap} {L(l)}")
             out.append(f"fb {ck} {cap} {L(l)}")
+            out.append(f"riter {ck} {cap} {L(l)}")
+            for k in ps:
+                out.append(f"copy2 {ck} {cap} {L(l)} {k}")
             for i in ps:
                 out.append(f"idx {ck} {cap} {L(l)} {i}")
             for c in al4:
                 out.append(f"pfx_c {ck} {cap} {L(l)} {c}")
                 for fam in FAMS:
+                    out.append(f"qdc_{fam} {ck} {cap} {L(l)} {c}")
                     for p in ps:
                         out.append(f"sc_{fam} {ck} {cap} {L(l)} {c} {p}")
             for n in N:
@@ -290,7 +301,10 @@ def gen_overloads(ck, caps, out, rng, frac=1.0):
                 out.append(f"rel_zs {ck} {cap} {L(l)} {L(n)}")
                 if len(n) <= cap:
                     out.append(f"rel_ss {ck} {cap} {L(l)} {L(n)}")
+                out.append(f"rel_sx {ck} {cap} {L(l)} {L(l + n)}")
+                out.append(f"rel_sx {ck} {cap} {L(l)} {L((l + [al2[0]] * 31)[:31])}")
                 for fam in FAMS:
+                    out.append(f"qdz_{fam} {ck} {cap} {L(l)} {L(n)}")
                     for p in ps:
                         out.append(f"sz_{fam} {ck} {cap} {L(l)} {L(n)} {p}")
                         out.append(f"sp_{fam} {ck} {cap} {L(l)} {L(n + [al2[0]])} {p} {rng.randint(0, len(n) + 1)}")
@@ -307,6 +321,12 @@ def gen_overloads(ck, caps, out, rng, frac=1.0):
                             out.append(f"c4p {ck} {cap} {L(l)} {p1} {n1} {L(n + [al2[1]])} {rng.randint(0, len(n) + 1)}")
                         if rng.random() < frac:
                             out.append(f"c5v {ck} {cap} {L(l)} {p1} {n1} {L(n)} {rng.choice(pn)} {rng.choice(pn)}")
+                        if rng.random() < frac:
+                            out.append(f"c4v {ck} {cap} {L(l)} {p1} {n1} {L(n)} {rng.choice(pn)}")
+                        if len(n) <= cap and rng.random() < frac:
+                            out.append(f"c4s {ck} {cap} {L(l)} {p1} {n1} {L(n)} {rng.choice(pn)}")
+                        if len(n) <= cap and rng.random() < frac:
+                            out.append(f"replace4 {ck} {cap} {L(l)} {p1} {n1} {L(n)} {rng.choice(pn)}")
 
 
 def single_ops2(l, al, cap):
@@ -315,9 +335,21 @@ def single_ops2(l, al, cap):
     a, b = al[0], al[1]
     pcs = list(range(0, n + 2)) + [NPOS]
     srcs = [[], [b], [a, b], [b, 0, a], [a, b, a, b]]
-    ops = [f"plc {a}", f"pec {b}", "rs0 0", f"rs0 {n + 1}", f"rs0 {NPOS}"]
+    ops = [f"plc {a}", f"pec {b}", "rs0 0", f"rs0 {n + 1}", f"rs0 {NPOS}", "erd", "subd", f"zch {a}", f"zch {0}"]
+    for p in pcs:
+        ops += [f"er1 {p}", f"sub1 {p}"]
+    for k in [0, 1, 2, 3, NPOS]:
+        ops.append(f"kf {k} {b}")
     for src in srcs:
-        for o in ["acs", "pez", "plz", "zcs", "zeq", "ast", "pes", "pls", "av", "zv", "kv", "kr", "kz"]:
+        ops.append(f"zst {L(src)}")
+        for p in list(range(0, len(src) + 2)) + [NPOS]:
+            for o in ["ass2", "avs2", "zss2", "zvs2"]:
+                ops.append(f"{o} {L(src)} {p}")
+            for i in range(0, n + 2):
+                ops.append(f"iss3 {i} {L(src)} {p}")
+                ops.append(f"ivs3 {i} {L(src)} {p}")
+    for src in srcs:
+        for o in ["acs", "pez", "plz", "zcs", "zeq", "ast", "pes", "pls", "av", "zv", "kv", "kr", "kz", "plsx", "pesx", "zveq", "pev"]:
             ops.append(f"{o} {L(src)}")
         ops.append(f"plzs {L([a, b])} {L(src)}")
         ops.append(f"plzs {L([])} {L(src)}")
@@ -347,6 +379,9 @@ def single_ops2(l, al, cap):
         for o in ["arr", "arf", "ari", "zr", "zrr", "zrf", "krr", "krf"]:
             ops.append(f"{o} {L(src)}")
     ops += self_ops(n)
+    # another capacity (5) on the right: empty ... full ... too long for it
+    for k in [4, 5, 6]:
+        ops += [f"plsx {L([a, b, a, b, a, b][:k])}", f"pesx {L([b, a, b, a, b, a][:k])}"]
     return ops
 
 
